@@ -683,8 +683,10 @@ func (s *socket) getAvailableUpgrades() []string {
 
 // Closes the socket and underlying transport.
 func (s *socket) Close(discard bool) {
-	if discard &&
-		(s.ReadyState() == "open" || s.ReadyState() == "closing") {
+	// (a session is still "opening" while its open packet is handed over: a
+	// listener of the server's flush event may refuse it there)
+	if state := s.ReadyState(); discard &&
+		(state == "open" || state == "closing" || state == "opening") {
 		s.closeTransport(discard)
 		return
 	}
